@@ -1037,15 +1037,17 @@ impl Brc20ProgDatabase {
             .expect(DB_MUTEX_ERROR)
             .reorg(latest_valid_block_number)?;
 
-        self.db_block_number_to_hash
-            .as_mut()
-            .expect(DB_MUTEX_ERROR)
-            .reorg(latest_valid_block_number)?;
         self.db_block_number_to_block
             .as_mut()
             .expect(DB_MUTEX_ERROR)
             .reorg(latest_valid_block_number)?;
         self.db_block_number_to_raw_block
+            .as_mut()
+            .expect(DB_MUTEX_ERROR)
+            .reorg(latest_valid_block_number)?;
+        // The block height is read from this table, so it is rolled back last: if the process
+        // dies before, the height is still above the target and the same reorg can be repeated
+        self.db_block_number_to_hash
             .as_mut()
             .expect(DB_MUTEX_ERROR)
             .reorg(latest_valid_block_number)?;
